@@ -84,10 +84,38 @@ type tcpRig struct {
 	rec  *reqRecorder
 }
 
+// a plugin that breaks down while a refusal is being answered (fault = prewrite | postwrite): a fault at exactly that
+// point must not turn the refusal into an admission
+type faultyAnswerPlugin struct{ fault string }
+
+func (p *faultyAnswerPlugin) PreWriteResponse(ctx context.Context, req, res *protocol.Message, err error) error {
+	if p.fault == "prewrite" && err != nil {
+		var m map[string]string
+		m["refused"] = err.Error() // nil map: panics
+	}
+	return nil
+}
+func (p *faultyAnswerPlugin) PostWriteResponse(ctx context.Context, req, res *protocol.Message, err error) error {
+	if p.fault == "postwrite" && err != nil {
+		panic("the post-write plugin cannot cope with a refusal")
+	}
+	return nil
+}
+
 func newTCPRig(acceptVeto, postRead, auth, preCall bool) (*tcpRig, error) {
+	return newTCPRigFault(acceptVeto, postRead, auth, preCall, "")
+}
+
+func newTCPRigFault(acceptVeto, postRead, auth, preCall bool, fault string) (*tcpRig, error) {
 	rg := &tcpRig{h: newHandlerEnv(false), done: make(chan error, 1), rec: &reqRecorder{}}
 	s := server.NewServer()
 	rg.srv = s
+	switch fault {
+	case "prewrite", "postwrite":
+		s.Plugins.Add(&faultyAnswerPlugin{fault: fault})
+	case "svcerr":
+		s.HandleServiceError = func(err error) { panic("HandleServiceError cannot cope with: " + err.Error()) }
+	}
 	s.RegisterName("Arith", &Arith{h: rg.h}, "")
 	s.RegisterName("com.example.Arith", &Arith{h: rg.h}, "")
 	s.RegisterFunctionName("Fn", "mul", func(ctx context.Context, a *SArgs, rep *SReply) error {
@@ -571,6 +599,11 @@ func runIngress(prop string, r *common.Rand, tier string, o *common.Out, replay 
 		replayFront(o, getRig([4]bool{}), replay)
 		return
 	}
+	fault := ""
+	if strings.HasPrefix(replay, "fault|") {
+		p := strings.SplitN(replay, "|", 3)
+		fault, replay = p[1], p[2]
+	}
 	if replay != "" {
 		p := strings.Split(replay, "|")
 		cfg := [4]bool{p[0][0] == '1', p[0][1] == '1', p[0][2] == '1', p[0][3] == '1'}
@@ -590,6 +623,24 @@ func runIngress(prop string, r *common.Rand, tier string, o *common.Out, replay 
 		seq, _ := strconv.ParseUint(p[12], 10, 64)
 		q := ingReq{ing: p[1], token: p[2], hb: p[3][0] == '1', ow: p[3][1] == '1', path: pm[0], method: pm[1], id: at(p[5]), a: at(p[6]), b: at(p[7]),
 			mode: p[8], text: text, malformed: p[10], meta: meta, seq: seq}
+		if fault != "" {
+			rg, err := newTCPRigFault(cfg[0], cfg[1], cfg[2], cfg[3], fault)
+			if err != nil {
+				return
+			}
+			defer rg.stop()
+			before := rg.invokedCount()
+			res := rg.do(q)
+			time.Sleep(20 * time.Millisecond)
+			if inv := rg.invokedCount() - before; inv > 0 {
+				o.Fail("replay", "handler-reached", fmt.Sprintf("a request that failed authentication (fault while answering: %s) ran %d handler(s)", fault, inv), replay)
+			}
+			if res.kind == "result" {
+				o.Fail("replay", "result-for-rejected", "a request that failed authentication received a result", replay)
+			}
+			o.ImplOnly("replay", replay, true)
+			return
+		}
 		runOne("replay", cfg, q)
 		return
 	}
@@ -630,6 +681,45 @@ func runIngress(prop string, r *common.Rand, tier string, o *common.Out, replay 
 		}
 	}
 	runOne(next(), open, ingReq{ing: "jsonrpc", token: "good", path: "Arith", method: "Mul", id: id, a: 2, b: 3, mode: "ok", malformed: "nodot"})
+	if prop == "C15" {
+		// a fault at one point of answering a refusal (a response plugin or the service-error hook panics): the
+		// refused request still reaches no handler and gets no result (oracle only: the model has no faults)
+		for _, fault := range []string{"prewrite", "postwrite", "svcerr"} {
+			rg, err := newTCPRigFault(false, false, true, false, fault)
+			if err != nil {
+				continue
+			}
+			for _, ing := range []string{"native", "gateway", "jsonrpc"} {
+				for _, tok := range []string{"", "bad"} {
+					for _, ow := range []bool{false, true} {
+						if ing == "jsonrpc" && ow {
+							// a notification runs in a goroutine of its own with no recover: a panicking plugin there ends
+							// the process, which no property speaks about (the fault is the plugin's)
+							continue
+						}
+						cid := next()
+						q := ingReq{ing: ing, token: tok, ow: ow, path: "Arith", method: "Mul", id: id, a: 2, b: 3, mode: "ok", seq: 9}
+						abstract := "fault|" + fault + "|" + q.enc([4]bool{false, false, true, false})
+						o.Begin(cid, abstract)
+						before := rg.invokedCount()
+						res := rg.do(q)
+						time.Sleep(20 * time.Millisecond)
+						inv := rg.invokedCount() - before
+						rg.drain()
+						if inv > 0 {
+							o.Fail(cid, "handler-reached", fmt.Sprintf("a request that failed authentication (%s, fault while answering: %s) ran %d handler(s)", ing, fault, inv), abstract)
+						}
+						if res.kind == "result" {
+							o.Fail(cid, "result-for-rejected", fmt.Sprintf("a request that failed authentication (%s, fault while answering: %s) received a result", ing, fault), abstract)
+						}
+						o.ImplOnly(cid, abstract, true)
+						o.Count("fault=" + fault)
+					}
+				}
+			}
+			rg.stop()
+		}
+	}
 	if prop == "C19" {
 		runFrontEnds(r, tier, o, getRig(open), next)
 		// equivalence: the same request through three fresh connections
